@@ -29,7 +29,8 @@ func (fl *PFLine) Reset() {
 
 // Request returns true if the parsed first line corresponds to a SIP request.
 func (fl *PFLine) Request() bool {
-	return fl.Status == 0
+	// a reply always has a status code (even "000" => Status == 0)
+	return fl.Status == 0 && fl.StatusCode.Empty()
 }
 
 // Empty returns true is nothing has been parsed yet.
